@@ -58,9 +58,12 @@ def gen_cases(tier, seed):
         if i % 9 == 4:
             # a categorical whose vocabulary GROWS from batch to batch (each label list a prefix of the next): more categories than the
             # code width chosen for the first batch
-            base["frame"]["cols"].append({"name": "cm", "kind": "cat_many", "nulls": "none", "ncat": 10})
+            # (the growing column comes BEFORE another categorical whose vocabulary stays as it is)
+            base["frame"]["cols"].insert(1, {"name": "cm", "kind": "cat_many", "nulls": "none", "ncat": 10})
+            base["frame"]["cols"].append({"name": "ctag", "kind": "cat_many", "nulls": "none", "ncat": 3})
             for j, st in enumerate(steps):
-                st["frame"]["cols"].append({"name": "cm", "kind": "cat_many", "nulls": "none", "ncat": [150, 300, 300, 700, 700, 700][min(j, 5)]})
+                st["frame"]["cols"].insert(1, {"name": "cm", "kind": "cat_many", "nulls": "none", "ncat": [150, 300, 300, 700, 700, 700][min(j, 5)]})
+                st["frame"]["cols"].append({"name": "ctag", "kind": "cat_many", "nulls": "none", "ncat": 3})
             base["growing_vocabulary"] = True
         if i % 6 == 2:
             # the dataset stores an UNNAMED row index (as column "index"); some appended frames come with a plain RangeIndex, whose
